@@ -134,35 +134,33 @@ def defaultJSONName (name : List Char) : List Char :=
       else (if up ∧ 'a' ≤ c ∧ c ≤ 'z' then Char.ofNat (c.toNat - 32) else c) :: go cs false
   go name false
 
-/-- the option lines of `printFieldStyle` (no comments): `head` is `"<label><type> <name>"`. -/
-def fieldStyle (n : Nat) (head : String) (number : String) (opts : List POpt) : List String :=
+/-- the option lines of the multi-line form of `printFieldStyle` on a builder with indentation `n` -/
+def fieldBody (n : Nat) : List POpt → List String
+  | [] => []
+  | o :: rest =>
+    let trailer := if rest.isEmpty then "" else ","
+    (match o.inl with
+     | some s => [ind (n + 1) (o.name ++ " = " ++ s ++ trailer)]
+     | none =>
+       match o.root with
+       | .msg _ kids => (ind (n + 1) (o.name ++ " = {") :: msgFields (n + 1) kids) ++ [ind (n + 1) ("}" ++ trailer)]
+       | .arr _ _ => []     -- no case in the Go switch (`statements` leaves no list at the root)
+       | .scalar _ v => [ind (n + 1) (o.name ++ " = " ++ v ++ trailer)]) ++ fieldBody n rest
+
+/-- the lines of `printFieldStyle` between the comments: `head` is `"<label><type> <name>"`,
+`ic` the inline comment (written after the first and — in the multi-line form — the last line). -/
+def fieldStyle (n : Nat) (head : String) (number : String) (opts : List POpt) (ic : String := "") : List String :=
   match opts with
-  | [] => [ind n (head ++ " = " ++ number ++ ";")]
+  | [] => [ind n (head ++ " = " ++ number ++ ";" ++ ic)]
   | _ =>
     match opts with
-    | [⟨name, _, some s, true⟩] => [ind n (head ++ " = " ++ number ++ " [" ++ name ++ " = " ++ s ++ "];")]
-    | _ =>
-      let rec body : List POpt → List String
-        | [] => []
-        | o :: rest =>
-          let trailer := if rest.isEmpty then "" else ","
-          (match o.inl with
-           | some s => [ind (n + 1) (o.name ++ " = " ++ s ++ trailer)]
-           | none =>
-             match o.root with
-             | .msg _ kids => (ind (n + 1) (o.name ++ " = {") :: msgFields (n + 1) kids) ++ [ind (n + 1) ("}" ++ trailer)]
-             | .arr _ _ => []     -- no case in the Go switch (`statements` leaves no list at the root)
-             | .scalar _ v => [ind (n + 1) (o.name ++ " = " ++ v ++ trailer)]) ++ body rest
-      (ind n (head ++ " = " ++ number ++ " [") :: body opts) ++ [ind n "];"]
+    | [⟨name, _, some s, true⟩] => [ind n (head ++ " = " ++ number ++ " [" ++ name ++ " = " ++ s ++ "];" ++ ic)]
+    | _ => (ind n (head ++ " = " ++ number ++ " [" ++ ic) :: fieldBody n opts) ++ [ind n ("];" ++ ic)]
 
-/-- insertion that keeps equal elements in their order -/
-def insertStable {α} (lt : α → α → Bool) (x : α) : List α → List α
-  | [] => [x]
-  | y :: ys => if lt x y then x :: y :: ys else y :: insertStable lt x ys
-
-/-- a stable sort (`slices.SortStableFunc`): insert from the right, before the first greater one -/
+/-- a stable sort (`slices.SortStableFunc`): elements are inserted from the left, each before the
+first greater one, so equal elements keep their order -/
 def stableSort {α} (lt : α → α → Bool) (l : List α) : List α :=
-  l.foldl (fun acc x => insertStable lt x acc) []
+  l.foldl (fun acc x => insertBy lt x acc) []
 
 /-- `optionsFor`: parse every option, then sort by qualified name; stable, so that the statements of
 one repeated option keep the order of the elements -/
